@@ -345,7 +345,7 @@ class HealPixRandoms(RandomsBase):
         MAX_NSIDE = 2**MAX_ORDER  # sample random pixel IDs at this resolution
 
         # generate list of pixel IDs to draw from (factoring in pixel weight)
-        ipix_draw = np.random.choice(
+        ipix_draw = self.rng.choice(
             self._ipix_unmasked,
             size=probe_size,
             p=self._probability,
